@@ -30,7 +30,7 @@ ASSUMPTIONS = [
     "(the library refuses with ValueError; the statement does not cover that combination)",
     "computed values compared with rtol=atol=1e-12, moved values exactly",
 ]
-MANDATORY = ["join:unaligned-secondary-labels-refused", "stack_ds:dict", "ds-ds:variable-sets-differ", "ds-ds:variable-named-like-a-dimension", "op:take", "op:loc", "op:sel", "op:ix", "op:isel", "op:reduce", "op:take_axis", "op:sort_axis", "op:reindex_axis", "op:reindex_like",
+MANDATORY = ["join:inner", "take:indices-axis-form", "join:unaligned-secondary-labels-refused", "stack_ds:dict", "ds-ds:variable-sets-differ", "ds-ds:variable-named-like-a-dimension", "op:take", "op:loc", "op:sel", "op:ix", "op:isel", "op:reduce", "op:take_axis", "op:sort_axis", "op:reindex_axis", "op:reindex_like",
              "op:interp_axis", "op:interp_like", "op:ds-scalar", "op:scalar-ds", "op:ds-ds", "op:neg", "op:stack_ds", "op:concatenate_ds",
              "var-lacks-dim", "var-0d", "reindex:missing", "interp:outside", "ds-ds:labels-differ", "ds-ds:layout-differs", "join:align=True"]
 
@@ -179,7 +179,8 @@ def case_st(draw):
                     o[dd] = list(dlabels[dd][::-1])      # without alignment: the same labels in another order on a secondary dimension must be refused
             others.append(o)
         p = {"others": others, "align": align, "keys": draw(st.sampled_from([None, "str", "dict", "dict-int"])) if op == "stack_ds" else None, "sort": draw(st.booleans()) if align else False,
-             "reorder": draw(st.booleans())}        # the later datasets hold the same variables, inserted in another order
+             "reorder": draw(st.booleans()),        # the later datasets hold the same variables, inserted in another order
+             "join": draw(st.sampled_from([None, None, "inner"])) if align else None}
     pre = draw(st.sampled_from(["none", "none", "warm", "derive-take", "derive-reindex", "derive-take", "derive-sort", "reinsert-first", "rename-first-key"]))
     if op == "ds-ds" and p.get("layout"):
         pre = "warm" if pre != "none" else "none"
@@ -238,6 +239,9 @@ def enumerate_cases(tier):
                             others.append(o)
                         yield "join-align-grid", {"op": op, "ds": ds3, "dsdims": ["x", "y", "z"], "dim": "x",
                                                   "p": {"others": others, "align": True, "keys": None, "sort": sort, "reorder": n == 3}}
+                        if r == "overlapping":
+                            yield "join-align-grid", {"op": op, "ds": ds3, "dsdims": ["x", "y", "z"], "dim": "x",
+                                                      "p": {"others": others, "align": True, "keys": None, "sort": sort, "reorder": False, "join": "inner"}}
     # identical (unsorted) axes in every dataset with align=True, sort=True: nothing to align, but the sorting still applies
     for op in ("stack_ds", "concatenate_ds"):
         for n in (2, 3):
@@ -430,6 +434,13 @@ def run_case(case):
         res = lib(call, what=what, sig=sig)
         check(list(idx_arg.keys()) == list(idx.keys()) and all(idx_arg[k_] is idx[k_] for k_ in idx), "index-mapping-modified", {"what": what, "now": core.jsonable(list(idx_arg.keys()))}, sig)
         check_result(res, expected, what, sig, ds_attrs=DS_ATTRS)
+        if len(idx) == 1 and op in ("take", "ix", "isel"):
+            # the (indices, axis) call form: axis by name, by position in the dataset, by negative position
+            (d1, i1), = idx.items()
+            for axform, axarg in (("name", d1), ("position", dsdims.index(d1)), ("negative position", dsdims.index(d1) - len(dsdims))):
+                res2 = lib(lambda: ds.take(indices=i1, axis=axarg, indexing=indexing, **kw), what=what + " [take(indices=i, axis=%s)]" % axform, sig=sig)
+                check_result(res2, expected, what + " [take(indices=i, axis=%s)]" % axform, sig, ds_attrs=DS_ATTRS)
+            cl.add("take:indices-axis-form")
         nontrivial = len(keys) >= 2 and any(any(dd not in ds[k].dims for dd in idx) for k in keys)
         if nontrivial:
             cl.add("var-lacks-dim")
@@ -560,6 +571,9 @@ def run_case(case):
             cl.add("join:align=True")
             if p["sort"]:
                 kw["sort"] = True
+            if p.get("join"):
+                kw["join"] = p["join"]          # (keyword forwarded to align: the intersection of the secondary labels instead of their union)
+                cl.add("join:inner")
         if not p["align"] and any(dd != d or op == "stack_ds" for o_ in p["others"] for dd in o_) and not (op == "concatenate_ds" and lacks):
             # a secondary dimension carries the same labels in another order in a later dataset and no alignment was asked for: every
             # per-variable join that sees the dimension refuses, and so does the dataset-level call (whichever variable comes first)
